@@ -247,7 +247,7 @@ func (c *Ctx) axiomOnce(key, a string) {
 	if c.declared["ax:"+key] {
 		return
 	}
-	c.markDeclared("ax:"+key)
+	c.markDeclared("ax:" + key)
 	c.axiom(a)
 }
 
